@@ -809,24 +809,53 @@ pub fn render_layout(p: &Program, rng: &mut Rng, o: LayoutOpts) -> String {
     let nl = if o.crlf { "\r\n" } else { "\n" };
     let mut s = String::new();
     let mut prev: Option<&str> = None;
-    let mut wrapped_open = 0usize;
+    let mut open_stack: Vec<(u16, bool)> = vec![];
     for t in p.toks.iter() {
-        // conditional directive wrapping whole statements
-        if o.directives && matches!(t.mark, Mark::Start(_)) {
-            if wrapped_open > 0 && rng.chance(1, 2) {
-                s.push_str(nl);
-                s.push_str(if rng.chance(1, 3) { "{$else}" } else { "{$endif}" });
-                if s.ends_with("{$endif}") {
-                    wrapped_open -= 1;
+        // conditional directives wrapping whole statements: opened before a Start(d) token, closed (or
+        // switched to an {$else} branch that wraps the next statement) before the next token that ends the
+        // statement: a Start(x <= d) or a Closer(x < d)
+        if o.directives {
+            let ends = |d: u16, m: Mark| match m {
+                Mark::Start(x) => x <= d,
+                Mark::Closer(x) => x < d,
+                _ => false,
+            };
+            let mut closed_here = false;
+            if let Some(&(d, in_else)) = open_stack.last() {
+                if ends(d, t.mark) {
+                    s.push_str(nl);
+                    if !in_else && matches!(t.mark, Mark::Start(x) if x == d) && rng.chance(1, 3) {
+                        s.push_str("{$else}");
+                        open_stack.last_mut().unwrap().1 = true;
+                    } else {
+                        s.push_str("{$endif}");
+                        open_stack.pop();
+                    }
+                    s.push_str(nl);
+                    prev = None;
+                    closed_here = true;
                 }
-                s.push_str(nl);
-                prev = None;
-            } else if rng.chance(1, 12) {
-                s.push_str(nl);
-                s.push_str(rng.pick_str(&["{$ifdef FOO}", "{$IFNDEF bar}", "{$if defined(X) and (Y > 1)}", "(*$ifdef A*)", "{$ifopt R+}"]));
-                s.push_str(nl);
-                wrapped_open += 1;
-                prev = None;
+            }
+            // close any further enclosing wrappers that also end here
+            while let Some(&(d, _)) = open_stack.last() {
+                if closed_here && ends(d, t.mark) && !s.ends_with(&format!("{{$else}}{}", nl)) {
+                    s.push_str("{$endif}");
+                    s.push_str(nl);
+                    open_stack.pop();
+                } else {
+                    break;
+                }
+            }
+            if let Mark::Start(d) = t.mark {
+                if open_stack.len() < 2 && !s.ends_with(&format!("{{$else}}{}", nl)) && rng.chance(1, 12) {
+                    if !s.is_empty() && !s.ends_with('\n') {
+                        s.push_str(nl);
+                    }
+                    s.push_str(rng.pick_str(&["{$ifdef FOO}", "{$IFNDEF bar}", "{$if defined(X) and (Y > 1)}", "(*$ifdef A*)", "{$ifopt R+}"]));
+                    s.push_str(nl);
+                    open_stack.push((d, false));
+                    prev = None;
+                }
             }
         }
         if let Some(pv) = prev {
@@ -858,6 +887,9 @@ pub fn render_layout(p: &Program, rng: &mut Rng, o: LayoutOpts) -> String {
             if gap.is_empty() && needs_sep(pv, &t.text) {
                 gap.push(' ');
             }
+            if pv.starts_with("//") && !gap.contains('\n') {
+                gap = format!("{}{}", nl, " ".repeat(rng.below(5)));
+            }
             s.push_str(&gap);
             if o.comments && rng.chance(1, 14) {
                 match rng.below(6) {
@@ -883,10 +915,9 @@ pub fn render_layout(p: &Program, rng: &mut Rng, o: LayoutOpts) -> String {
         s.push_str(&t.text);
         prev = Some(&t.text);
     }
-    while wrapped_open > 0 {
+    while open_stack.pop().is_some() {
         s.push_str(nl);
         s.push_str("{$endif}");
-        wrapped_open -= 1;
     }
     if rng.chance(3, 4) {
         s.push_str(nl);
@@ -1161,4 +1192,92 @@ pub fn lex_family(rng: &mut Rng, n: usize, exhaustive: bool) -> Vec<String> {
         }
     }
     v
+}
+
+
+/// C07 family: toggle comments (3 comment forms x letter case x on/off/other words) between arbitrary tokens
+pub fn with_regions(p: &Program, rng: &mut Rng) -> Program {
+    let mut out = Program::default();
+    let n = p.toks.len();
+    let k = rng.range(1, 4);
+    let mut positions: Vec<usize> = (0..k).map(|_| rng.below(n + 1)).collect();
+    positions.sort();
+    let mut pi = 0;
+    for (i, t) in p.toks.iter().enumerate() {
+        while pi < positions.len() && positions[pi] == i {
+            out.toks.push(GTok { text: toggle_comment(rng), mark: Mark::None });
+            pi += 1;
+        }
+        out.toks.push(t.clone());
+    }
+    while pi < positions.len() {
+        out.toks.push(GTok { text: toggle_comment(rng), mark: Mark::None });
+        pi += 1;
+    }
+    out
+}
+
+pub fn toggle_comment(rng: &mut Rng) -> String {
+    let word = *rng.pick(&["off", "off", "off", "on", "on", "OFF", "On", "oFf", "offf", "o", "of", "onn", "off2", "off,", "on!"]);
+    let name = *rng.pick(&["pasfmt", "pasfmt", "PASFMT", "PasFmt", "pasfmtx", "pas fmt"]);
+    let sp1 = *rng.pick(&["", " ", "  ", "\t"]);
+    let sp2 = *rng.pick(&[" ", " ", "  ", "\t", ""]);
+    let tail = *rng.pick(&["", " ", " trailing words", "-"]);
+    match rng.below(3) {
+        0 => format!("//{}{}{}{}{}", sp1, name, sp2, word, tail),
+        1 => format!("{{{}{}{}{}{}}}", sp1, name, sp2, word, tail),
+        _ => format!("(*{}{}{}{}{}*)", sp1, name, sp2, word, tail),
+    }
+}
+
+
+/// targeted family: multi-line strings with arbitrary (over/under) indentation in various expression
+/// positions, inside child lines, followed by further tokens
+pub fn mls_family_case(rng: &mut Rng) -> String {
+    let q = if rng.chance(1, 5) { "\'\'\'\'\'" } else { "\'\'\'" };
+    let ind = " ".repeat(*rng.pick(&[0usize, 2, 4, 6, 10, 20, 40, 60]));
+    let nl = *rng.pick(&["\n", "\n", "\r\n"]);
+    let mut lit = String::new();
+    lit.push_str(q);
+    lit.push_str(nl);
+    for i in 0..rng.range(1, 3) {
+        match rng.below(6) {
+            0 => lit.push_str(nl),
+            1 => {
+                lit.push_str(&ind);
+                lit.push_str("  deeper  ");
+                lit.push_str(nl);
+            }
+            2 => {
+                // short line: prefix of the indentation
+                lit.push_str(&ind[..ind.len() / 2]);
+                lit.push_str(nl);
+            }
+            _ => {
+                lit.push_str(&ind);
+                lit.push_str(&format!("text{}", i));
+                lit.push_str(nl);
+            }
+        }
+    }
+    lit.push_str(&ind);
+    lit.push_str(q);
+    let tail = *rng.pick(&["", ".Trim", ".Trim(aaaaaaa, bbbbbbb)", " + Foo(Bar, Baz)", " + 'x'", ".Replace('a', 'b').ToUpper"]);
+    let pre_gap = *rng.pick(&[" ", "\n", "\n      ", "\n                                        "]);
+    let stmt = match rng.below(5) {
+        0 => format!("x :={}{}{};", pre_gap, lit, tail),
+        1 => format!("Foo({}{}{}, 123);", pre_gap.trim_start_matches(' '), lit, tail),
+        2 => format!("x := Bar(1,{}{}{}) + Baz;", pre_gap, lit, tail),
+        3 => format!("Result := [{}{}{}];", pre_gap.trim_start_matches(' '), lit, tail),
+        _ => format!("const S ={}{}{};", pre_gap, lit, tail),
+    };
+    match rng.below(7) {
+        0 => format!("{}\n", stmt),
+        1 => format!("begin\n  {}\nend;\n", stmt),
+        2 => format!("begin\n  if a then\n    {}\nend;\n", stmt),
+        3 => format!("begin\n  while a do {}\nend;\n", stmt),
+        4 => format!("begin\n  case a of\n    1: {}\n  end;\nend;\n", stmt),
+        5 => format!("begin\n  Foo(procedure\n    begin\n      {}\n    end);\nend;\n", stmt),
+        _ => format!("begin\n  if a then begin\n    {}\n  end else\n    {}\nend;\n", stmt, stmt),
+    }
 }
